@@ -75,6 +75,12 @@ CLAIMED["C07"] = dict(
     note="Trusted: the two text parsers, the reference ABI model (validated against compiled code by C01), the fixed table of accepted scalar spellings. No Dart/Kotlin toolchain exists in the sandbox.",
     ref="DESIGN.md §2 C07")
 
+CLAIMED["C08"] = dict(
+    engine="P", technique="property-based differential testing: generated structs and values, generated JS executed in Node against a stub wasm memory vs a rustc-computed repr(C) layout oracle and a reference model of the wasm argument ABI",
+    text="Generated struct definitions (any field order / padding pattern, nesting, options, pointers, slices) and field values; the generated JS's written bytes, read-back values, buffer size/alignment and flattened argument lists are compared with rustc's offset_of!/size_of! for the 32-bit-pointer rendering of the same structs (real diplomat_runtime::DiplomatOption) and with the wasm ABI model, for js.abi = legacy and spec. Exploration.",
+    note="Trusted: rustc layout of the pointer-narrowed structs on x86-64 as a stand-in for wasm32; the legacy flattening model transcribed from docs/wasm_abi_quirks.md (no legacy-ABI compiler available); node executing the generated modules.",
+    ref="DESIGN.md §2 C08")
+
 TODO_REASON = "check not built yet in this revision of /verif (planned, see DESIGN.md §2); not claimed until it is silent on the unchanged tree and kills its mutants"
 
 ALL = ["C%02d" % i for i in range(1, 18)]
